@@ -10,6 +10,19 @@ GHOST_DEFS
 #include "contracts/header.h"
 #include "extracted_zalloc.c"    /* zmalloc, zrealloc: verbatim from src/lib/zck.c   */
 #include "extracted_hash.c"      /* hash_reset: verbatim from src/lib/hash/hash.c    */
+#ifdef VERIF_NATIVE
+/* native replay only: the call read_index -> index_read is intercepted so that the limit the real
+ * read_index computes can be compared with the buffer it points into (this is the precondition of
+ * index_read's contract, evaluated on the real code's arguments) */
+static bool verif_index_read_probe(zckCtx *zck, char *data, size_t size, size_t max_length) {
+    size_t off = (size_t)(data - zck->header);
+    V_ASSERT(data >= zck->header && off <= zck->header_size && size <= max_length && max_length <= zck->header_size - off,
+             "C03.read_index.limit_passed_to_index_read_lies_inside_the_header_buffer");
+    zck->index.first = calloc(1, sizeof(zckChunk)); zck->index.count = 1;
+    return true;
+}
+#define index_read verif_index_read_probe
+#endif
 #include "src/lib/header.c"
 
 /* ---------------------------------------------------------------- read_lead -------------- */
@@ -166,8 +179,8 @@ void h_read_preface(void) {
     IN_hp in = nondet_IN_hp();
     zckCtx *zck = mk_loaded_ctx(&in);
     bool r = read_preface(zck);
-    V_ASSERT(!r || post_read_preface(zck), "C13.read_preface.flags_comp_type_index_size_preface_size_are_the_stored_ones");
 #ifdef VERIF_NATIVE
+    V_ASSERT(!r || post_read_preface(zck), "C13.read_preface.flags_comp_type_index_size_preface_size_are_the_stored_ones");
     /* native replay only: the specification-derived parser (with its loop over optional elements)
      * must accept every preface that read_preface accepts, with the same cursor */
     V_ASSERT(!r || spec_preface_end(zck->header + zck->lead_size, zck->header_length, (size_t)zck->hash_type.digest_size) == zck->preface_size,
